@@ -29,6 +29,20 @@ Proof.
   - destruct (Nat.eqb st 1 || Nat.eqb st 3); reflexivity.
   - destruct (N.eqb c 95); [destruct (Nat.eqb st 1 || Nat.eqb st 3); [apply IH|reflexivity]|]. destruct (digit_val c); [|reflexivity]. destruct (_ <? b); [apply IH|reflexivity].
 Qed.
+(* conversely every well-formed body - digits of the base, single underscores between them - is accepted *)
+Inductive wf_body (b:Z) : list N -> Prop :=
+  | wf_last c d : digit_val c = Some d -> d < b -> wf_body b [c]
+  | wf_digit c d r : digit_val c = Some d -> d < b -> wf_body b r -> wf_body b (c :: r)
+  | wf_under c d r : digit_val c = Some d -> d < b -> wf_body b r -> wf_body b (c :: 95%N :: r).
+Lemma digit_not_underscore c d : digit_val c = Some d -> N.eqb c 95 = false.
+Proof. intros H. destruct (N.eqb_spec c 95) as [->|]; [vm_compute in H; discriminate|reflexivity]. Qed.
+Theorem well_formed_is_accepted b l : wf_body b l -> forall a st, exists v, scan b l a st = Some v.
+Proof.
+  induction 1 as [c d Hd Hb|c d r Hd Hb _ IH|c d r Hd Hb _ IH]; intros a st; cbn [scan]; rewrite (digit_not_underscore c d Hd), Hd; apply Z.ltb_lt in Hb; rewrite Hb.
+  - cbn [scan Nat.eqb]. eauto.
+  - apply IH.
+  - cbn [scan N.eqb Pos.eqb Nat.eqb orb]. apply IH.
+Qed.
 (* at least one digit is required *)
 Theorem no_digits_no_number b a st : st <> 1%nat -> scan b [] a st = None.
 Proof. intros H. cbn [scan]. destruct (Nat.eqb_spec st 1); [contradiction|reflexivity]. Qed.
@@ -46,4 +60,4 @@ Qed.
 Example numerals_somewhere : parse_int [49; 95; 48; 48; 48]%N 10 = Some 1000 /\ parse_int [45; 48; 120; 95; 102; 70]%N 16 = Some (-255) /\ parse_int [48; 98; 49; 48; 49]%N 0 = Some 5
   /\ parse_int [48; 49]%N 0 = None /\ parse_int [48; 95; 48]%N 0 = Some 0 /\ parse_int [49; 95; 95; 48]%N 10 = None /\ parse_int [48; 120]%N 16 = None.
 Proof. vm_compute. repeat split. Qed.
-Print Assumptions underscores_are_ignored. Print Assumptions underscore_never_doubled. Print Assumptions underscore_never_last. Print Assumptions base_zero_leading_zero.
+Print Assumptions underscores_are_ignored. Print Assumptions well_formed_is_accepted. Print Assumptions underscore_never_doubled. Print Assumptions underscore_never_last. Print Assumptions base_zero_leading_zero.
